@@ -389,7 +389,8 @@ def main():
         for b, o in work:
             b.goto_for(o['defines'])
         # ---- solver runs + native builds concurrently
-        with ThreadPoolExecutor(max_workers=args.jobs) as ex:
+        njobs = max(1, min(args.jobs, SPEC.get('max_jobs', args.jobs)))   # memory-heavy properties limit their own parallelism
+        with ThreadPoolExecutor(max_workers=njobs) as ex:
             nat_futs = {}
             if not args.no_native:
                 nat_futs = {n: ex.submit(b.build_native_common) for n, b in builds.items()}
